@@ -2773,6 +2773,8 @@ int mergesrvconf(struct clsrvconf *dst, struct clsrvconf *src) {
             dst->retrycount = src->retrycount;
         dst->blockingstartup = src->blockingstartup;
         dst->sni = src->sni;
+        if (src->loopprevention != UCHAR_MAX) /* set in the block itself: else the template block's value stands */
+            dst->loopprevention = src->loopprevention;
     }
     dst->shallow = 0;
     return 1;
